@@ -113,14 +113,16 @@ def rotation_matrix_to_rodrigues_vector(r, calculate_jacobian=False):
             r_out = np.zeros((3, 1))
         else:
             rx, ry, rz = np.sqrt(np.clip((np.diag(r) + 1) * 0.5, 0, np.inf))
-            if r[0, 1] < 0:
+            # signs from the symmetric part 2(1-c) k_i k_j: r[i, j] alone also carries -+ s k_l, which decides
+            # the sign when two axis components are small and the angle is not exactly pi
+            if r[0, 1] + r[1, 0] < 0:
                 ry = -ry
-            if r[0, 2] < 0:
+            if r[0, 2] + r[2, 0] < 0:
                 rz = -rz
             if (
                 np.abs(rx) < np.abs(ry)
                 and np.abs(rx) < np.abs(rz)
-                and ((r[1, 2] > 0) != (ry * rz > 0))
+                and ((r[1, 2] + r[2, 1] > 0) != (ry * rz > 0))
             ):
                 rz = -rz
             r_out = np.array([[rx, ry, rz]]).T
